@@ -758,6 +758,55 @@ fn run_case(case: &Val) -> Val {
                     .collect(),
             )
         }
+        // [16, ..as 11..]: the same scenario through the real TableManager: insert_route, the
+        // registered neighbour's event channel, mark_llgr_stale (restale_llgr + drop_no_llgr +
+        // distribute_update); every NlriChange the channel delivers goes through process_nlri_change
+        16 => {
+            let ctx = ctx_of(case.at(1));
+            let emax = case.at(2).usize();
+            let raddr = ip_of(case.at(3));
+            let cid = cid_of(case.at(4));
+            let src = src_of(case.at(5));
+            let nh = nh_opt_of(case.at(6));
+            let attrs = attrs_of(case.at(7));
+            let rt = tokio::runtime::Builder::new_current_thread().enable_all().build().unwrap();
+            rt.block_on(async move {
+                let tables: TableHandle = Arc::new(crate::table_manager::TableManager::new(1));
+                let mut rx = tables.register_peer(raddr, FnvHashSet::default(), |_| {});
+                let mut map = if emax == 1 { ExportMap::new([]) } else { ExportMap::new([Family::IPV4]) };
+                let norm = |ops: Vec<Val>| -> Val {
+                    Val::L(
+                        canon_ops(ops)
+                            .into_iter()
+                            .map(|o| {
+                                let mut l = o.list().to_vec();
+                                l[1] = Val::n(1u8);
+                                if emax != 1 {
+                                    l[2] = Val::n(1u8);
+                                }
+                                Val::L(l)
+                            })
+                            .collect(),
+                    )
+                };
+                let mut drain = |rx: &mut mpsc::UnboundedReceiver<ToPeerEvent>, map: &mut ExportMap| -> Vec<Val> {
+                    let mut sink = RecSink { ops: Vec::new() };
+                    while let Ok(ev) = rx.try_recv() {
+                        if let ToPeerEvent::NlriChange(ch) = ev {
+                            process_nlri_change(&ch, emax, raddr, map, &mut sink, &ctx, None, cid, None, None, None);
+                        }
+                    }
+                    sink.ops
+                };
+                let net: packet::Nlri = "10.9.0.0/24".parse().unwrap();
+                let exceeded = tables.insert_route(src.clone(), Family::IPV4, packet::PathNlri::new(net), nh, attrs, None, 0);
+                assert!(!exceeded);
+                let ops1 = drain(&mut rx, &mut map);
+                tables.mark_llgr_stale(src.remote_addr, &[Family::IPV4]);
+                let ops2 = drain(&mut rx, &mut map);
+                Val::L(vec![norm(ops1), norm(ops2)])
+            })
+        }
         t => panic!("verif: unknown case tag {}", t),
     }
 }
